@@ -81,6 +81,10 @@ func c18Build(rs []c18Reg) *modbus.Regs {
 	for _, r := range rs {
 		if v := c18Validator(r.Kind, r.K); v != nil {
 			_ = regs.AddRegValueValidator(r.Addr, v)
+		} else if r.Addr%3 == 1 {
+			// a validator that was installed and lifted again (set to nil): the register takes any value
+			_ = regs.AddRegValueValidator(r.Addr, func(uint16) bool { return false })
+			_ = regs.AddRegValueValidator(r.Addr, nil)
 		}
 	}
 	return regs
